@@ -399,7 +399,7 @@ source, `Proofs.Ring.lockFacts_steps` with what `tstep` does at each mark. -/
 def lockFacts : List (Nat × List Nat) := [
   (0, [10, 11, 1000, 12, 1006, 13, 1002, 14, 1001, 15, 1007, 16, 1003, 1100]),
   (1, [20, 1401, 21, 1400, 1100]),
-  (2, [1200, 110, 1404, 1100, 1311, 1100, 111, 1310, 1100, 1100]),
+  (2, [1200, 110, 1404, 1100, 1311, 1100, 112, 1401, 111, 1310, 1100, 1100]),
   (3, [1200, 120, 1404, 1100, 1306, 121, 1100, 1308, 1100, 1100]),
   (4, [60, 1404, 1301, 1100, 61, 1401, 62, 1400, 63, 64, 1403, 65, 1000, 66, 1006, 67, 1002, 1100, 68, 69, 1403, 70, 1000, 71, 1006, 72, 1002, 1100, 73, 1001, 74, 1400, 1400, 75, 1404, 76, 1003, 1100, 77, 1005, 78, 79, 1003]),
   (5, [40, 1404, 1100, 1311, 1100, 41, 42, 1402, 43, 1001, 44, 1007, 45, 1003, 1100]),
